@@ -14,7 +14,7 @@
 (*   E >= 0 :  D = A * 2^E  (mod M)                       -- exact                       *)
 (*   E <  0 :  | D - A / 2^(-E) | <= 1  on the cycle Z/M  -- one unit of the last limb   *)
 (* The second case is evaluated without large intermediates: with q = floor(A / 2^(-E)), *)
-(*   D - q (mod M, balanced) is in {-1,0,1} when 2^(-E) divides A and in {0,1} otherwise.*)
+(*   D - q (mod M) is in {-1,0,1} when 2^(-E) divides A and in {0,1} otherwise.*)
 (* Accumulating forms state the same about D = +-(result - previous result).             *)
 EXTENDS Integers, Sequences, Pow2, Poly, Limbs
 
@@ -33,31 +33,40 @@ NOff(op, p) ==
 NAccumulates(op) == op \in {"lsh_add_into", "lsh_sub", "rsh_add_into", "rsh_sub", "big_normalize_add_assign", "big_normalize_sub_assign"}
 NSign(op) == IF op \in {"lsh_sub", "rsh_sub", "big_normalize_sub_assign", "big_normalize_negate"} THEN -1 ELSE 1
 
-\* the core relation for one coefficient
-TorusShiftOK(D, A, E, M) ==
-  IF E >= 0 THEN (D - A * Pow2(E)) % M = 0
-  ELSE LET s == Pow2(-E)
-           q == A \div s
-           exact == (A % s = 0)
-           dd == CMod(D - q, M)
-       IN IF exact THEN dd \in {-1, 0, 1} ELSE dd \in {0, 1}
+\* the core relation for one coefficient (mb = log2 M).  Written so that no intermediate exceeds
+\* max(|A| * M, |D|): shifts that push everything out (E >= mb) or below one unit (-E >= Cap with
+\* |A| < 2^Cap) are decided without forming 2^|E|.
+Cap == 24
+TorusShiftOK(D, A, E, mb, t) ==   \* t = tolerance in units of the last limb (the property: t = 1)
+  LET M == Pow2(mb) IN
+  IF E >= mb THEN D % M = 0
+  ELSE IF E >= 0 THEN (D - A * Pow2(E)) % M = 0
+  ELSE LET big == (-E >= Cap)
+           q == IF big THEN (IF A < 0 THEN -1 ELSE 0) ELSE A \div Pow2(-E)
+           exact == IF big THEN A = 0 ELSE (A % Pow2(-E) = 0)
+           dd == (D - q) % M          \* residue in 0..M-1 (M may be as small as 2, where 1 = -1)
+       IN /\ Abs(A) < Pow2(Cap)
+          /\ IF exact THEN \E u \in (-t)..t : dd = u % M ELSE \E u \in (1 - t)..t : dd = u % M
 
-NormOK(op, N, p, rs, ins, d) ==
+NormOKt(op, N, p, rs, ins, d, t) ==
   LET src == NSrc(op, ins)
       bA == p.ab
       bR == p.rb
       Sa == Len(src)
       E  == NOff(op, p) + rs * bR - Sa * bA
-      M  == Pow2(rs * bR)
   IN /\ Len(d) = rs
      /\ \A j \in 1..rs : Len(d[j]) = N
      /\ \A i \in 1..N :
           LET A  == TorusInt(src, bA, i)
               Dn == TorusInt(d, bR, i)
               D0 == IF NAccumulates(op) THEN TorusInt(ins.r, bR, i) ELSE 0
-          IN TorusShiftOK(NSign(op) * (Dn - D0), A, E, M)
+          IN TorusShiftOK(NSign(op) * (Dn - D0), A, E, rs * bR, t)
      \* for equal radices every output digit is balanced (plain, non-accumulating, non-negated forms)
      /\ (op \in NormOpsPlain /\ bA = bR) => IsNormalized(d, bR)
+
+NormOK(op, N, p, rs, ins, d) == NormOKt(op, N, p, rs, ins, d, 1)
+\* diagnostic only (classification of rejected events for the findings file): within two units
+NormOK2(op, N, p, rs, ins, d) == NormOKt(op, N, p, rs, ins, d, 2)
 
 \* A constructive reference (floor-based carry propagation from the least significant limb) used by
 \* MC_Norm to show that the relational post-condition above is satisfiable and not vacuous:
